@@ -299,7 +299,12 @@ impl Run {
   }
 
   fn write_replay(&self, sub: &str, v: &Violation, case: &Value) -> String {
-    let dir = format!("{}/replays/{}", VERIF_ROOT, self.id);
+    // VERIF_OUT_DIR redirects replays and evidence (background campaigns run from a snapshot must
+    // not overwrite the evidence that /verif itself produced)
+    let dir = match std::env::var("VERIF_OUT_DIR") {
+      Ok(d) => format!("{}/replays/{}", d, self.id),
+      Err(_) => format!("{}/replays/{}", VERIF_ROOT, self.id),
+    };
     let _ = std::fs::create_dir_all(&dir);
     let body = json!({"property": self.id, "sub": sub, "violation": v, "case": case, "seed": self.seed, "tier": self.tier.name()});
     let h = hash_json(&json!({"sub": sub, "case": case, "check": v.check}));
@@ -476,7 +481,10 @@ impl Run {
       "wall_s": wall,
       "violations": violations.len(),
     });
-    let dir = format!("{}/evidence", VERIF_ROOT);
+    let dir = match std::env::var("VERIF_OUT_DIR") {
+      Ok(d) => format!("{}/evidence", d),
+      Err(_) => format!("{}/evidence", VERIF_ROOT),
+    };
     let _ = std::fs::create_dir_all(&dir);
     let path = format!("{}/{}.json", dir, self.id);
     if let Err(e) = std::fs::write(&path, serde_json::to_string_pretty(&ev).unwrap()) {
